@@ -24,6 +24,7 @@ rundemo() {
     for f in "$SRC"/*_test.go; do cp "$f" "$W/$sub/zz_seed_$(basename "$f")"; done
     names=$(grep -ho '^func Test[A-Za-z0-9_]*' "$SRC"/*_test.go | sed 's/^func //' | paste -sd'|')
     tags=""; grep -q "Verif" "$SRC"/*_test.go && tags="-tags verif"
+    if grep -q "go:build race" "$SRC"/*_test.go; then tags="$tags -race"; export CGO_ENABLED=1; fi
     (cd "$W" && go test $tags -count=1 -run "^($names)\$" ./$sub >/tmp/seedchk.$$.log 2>&1); rc=$?
     rm -f "$W/$sub"/zz_seed_*_test.go; [ "$sub" = zz_seeddemo ] && rm -rf "$W/zz_seeddemo"
   else
